@@ -38,7 +38,7 @@ TECHNIQUE = 'bounded-exhaustive end-to-end trace enumeration against brute-force
 ASSUMPTIONS = ['state names are derived from the site states the real code reports (C02 decides whether those are right)']
 
 R_SITE = 0.6
-PARAMS = [(2.0, 0.5), (3.0, 0.3), (5.0, 0.1)]
+PARAMS = [(2.0, 0.5), (3.0, 0.3), (5.0, 0.1), (2.0, 0.3)]  # last: cut-off is not a whole number of shells
 FRAME_POS = [(0.3, 0.3, 0.3), (0.62, 0.4, 0.71), (0.15, 0.8, 0.45)]
 TRACKS1 = [(1, 1, 1), (3, 0, 5), (0, 5, 5), (5, 0, 1)]
 
@@ -52,7 +52,7 @@ def shards(tier, seed):
     for lname, M in lats:
         for labels in alphabets.LABELS[3][::-1]:
             for part in range(4):
-                out.append({'lat': lname, 'M': M.tolist(), 'labels': list(labels), 'part': part, 'tier': tier, 'param': k % 3, 'fw': k % 3})
+                out.append({'lat': lname, 'M': M.tolist(), 'labels': list(labels), 'part': part, 'tier': tier, 'param': k % 4, 'fw': k % 3, 'ox': k % 2})
                 k += 1
     return out
 
@@ -86,11 +86,11 @@ def state_name(trace, prev, nxt, labels, t, a):
     return labels[p] + '->' + labels[n]
 
 
-def evaluate(trace, M, labels, param, fw, res: Result):
+def evaluate(trace, M, labels, param, fw, res: Result, ox=0):
     from gemdat.rdf import radial_distribution, radial_distribution_between_species
 
     M = np.asarray(M)
-    case = {'trace': trace, 'M': M.tolist(), 'labels': labels, 'param': param, 'fw': fw}
+    case = {'trace': trace, 'M': M.tolist(), 'labels': labels, 'param': param, 'fw': fw, 'ox': ox}
     site_frac = np.array(alphabets.SITESETS['S3'])
     L = len(trace)
     fwk = [FRAME_POS[fw], FRAME_POS[(fw + 1) % 3], (0.8, 0.15, 0.2)]
@@ -103,7 +103,13 @@ def evaluate(trace, M, labels, param, fw, res: Result):
     order = [0, 2, 1, 3, 4]
     species = ['Li', 'S', 'Li', 'S', 'P']
     coords = coords[:, order, :]
-    traj = concretise.make_trajectory(coords, species, M, time_step=1e-15)
+    sp_objs = species
+    if ox:
+        from pymatgen.core import Species
+
+        # the two S atoms are DIFFERENT species (S2- and S0) sharing one element symbol
+        sp_objs = [Species('Li', 1), Species('S', -2), Species('Li', 1), Species('S', 0), Species('P', 5)]
+    traj = concretise.make_trajectory(coords, sp_objs, M, time_step=1e-15)
     sites = concretise.make_sites(site_frac, labels, M)
     if not hop.change_log(trace):
         return
@@ -240,7 +246,7 @@ def run_shard(shard) -> Result:
     res = Result()
     M = np.array(shard['M'])
     for trace in traces_for(shard['part'], shard['tier']):
-        evaluate(trace, M, shard['labels'], shard['param'], shard['fw'], res)
+        evaluate(trace, M, shard['labels'], shard['param'], shard['fw'], res, shard.get('ox', 0))
     res.sample({'lattice': shard['lat'], 'labels': shard['labels'], 'trace': trace, 'max_dist_resolution': PARAMS[shard['param']]})
     return res
 
@@ -254,5 +260,5 @@ def finalize(total, tier):
 
 def replay(case):
     res = Result()
-    evaluate(case['trace'], np.array(case['M']), case['labels'], case['param'], case['fw'], res)
+    evaluate(case['trace'], np.array(case['M']), case['labels'], case['param'], case['fw'], res, case.get('ox', 0))
     return [{'kind': v['kind'], 'detail': v['detail']} for v in res.viols]
